@@ -35,6 +35,9 @@ def generate(seed, tier):
         evs = list(sc.C01_EVALS)
         rng.shuffle(evs)
         ops.append({"op": "eval", "names": evs, "x": x, "t": t, "identity": True})
+    if rng.random() < 0.2 and params:
+        ops.extend(sc.grow_ops(S("sched"), model, names, params, sc.C01_EVALS, count=rng.choice([1, 2]), with_identity=True))
+        ops.append({"op": "sym", "names": ["ode_eqn", "vmat", "rates", "pure"]})
     theta = [round(rng.uniform(0.05, 3.0), 4) for _ in params]
     return {"engine": "session", "model": model, "order": order, "env": {"K": kenv}, "theta": theta,
             "ops": ops, "batch": batch}
